@@ -367,7 +367,7 @@ Proof.
 Qed.
 
 (* ------------------------------------------------------------------------------------------ *)
-(*  position_to_index: the column loop                                                          *)
+(*  position_to_index: the column loop (shared by the current code and the pre-229693d code)     *)
 (* ------------------------------------------------------------------------------------------ *)
 (* what position_to_index answers once line_start_idx and the line's characters are fixed *)
 Definition col_result (start : nat) (seg : text) (col : nat) : nat :=
@@ -446,7 +446,8 @@ Proof.
 Qed.
 
 (* ------------------------------------------------------------------------------------------ *)
-(*  position_to_index: which line the two pops select                                           *)
+(*  which line the two pops select — first for position_to_index_old (the code before 229693d, *)
+(*  to which the current code is reduced outside the final line: fix_confined below)            *)
 (* ------------------------------------------------------------------------------------------ *)
 Lemma p2i_unfold (t : text) (nl : list nat) (col : nat) seg (s e : nat) :
   last nl (length t) = e -> last (removelast nl) 0 = s -> slice_chk t s e = Ok seg -> e = s + length seg ->
@@ -466,9 +467,9 @@ Qed.
 (* (A) line `line` exists and is terminated by a newline *)
 Lemma p2i_terminated (P ln r : text) (line col : nat) :
   complete P -> count_nl P = line -> nonl ln ->
-  position_to_index (P ++ ln ++ NL :: r) line col = Ok (col_result (length P) (ln ++ [NL]) col).
+  position_to_index_old (P ++ ln ++ NL :: r) line col = Ok (col_result (length P) (ln ++ [NL]) col).
 Proof.
-  intros HP Hc Hln. unfold position_to_index.
+  intros HP Hc Hln. unfold position_to_index_old.
   set (t := P ++ ln ++ NL :: r).
   assert (firstn (line + 1) (newline_indices t) = newline_indices P ++ [S (length P + length ln)]) as Hnl.
   { unfold t, newline_indices. rewrite nli_app. cbn [plus]. rewrite (nli_line (length P) ln r Hln).
@@ -485,9 +486,9 @@ Qed.
 
 (* (B) no newline in the text at all: the whole text, whatever the line number *)
 Lemma p2i_single_line (t : text) (line col : nat) :
-  nonl t -> position_to_index t line col = Ok (col_result 0 t col).
+  nonl t -> position_to_index_old t line col = Ok (col_result 0 t col).
 Proof.
-  intros Ht. unfold position_to_index, newline_indices. rewrite (nli_nonl 0 t Ht).
+  intros Ht. unfold position_to_index_old, newline_indices. rewrite (nli_nonl 0 t Ht).
   rewrite firstn_nil. apply p2i_unfold with (e := length t).
   - reflexivity.
   - reflexivity.
@@ -496,12 +497,12 @@ Proof.
 Qed.
 
 (* (C) at least one but at most `line` newlines: the LAST TERMINATED line is selected, whatever
-   follows it — for line = count_nl t this is the line before the one asked for (F9) *)
+   follows it — for line = count_nl t this is the line before the one asked for (F9, fixed since) *)
 Lemma p2i_last_terminated (Q ln0 ln : text) (line col : nat) :
   complete Q -> nonl ln0 -> nonl ln -> count_nl Q + 1 <= line ->
-  position_to_index (Q ++ ln0 ++ NL :: ln) line col = Ok (col_result (length Q) (ln0 ++ [NL]) col).
+  position_to_index_old (Q ++ ln0 ++ NL :: ln) line col = Ok (col_result (length Q) (ln0 ++ [NL]) col).
 Proof.
-  intros HQ Hln0 Hln Hc. unfold position_to_index.
+  intros HQ Hln0 Hln Hc. unfold position_to_index_old.
   set (t := Q ++ ln0 ++ NL :: ln).
   assert (firstn (line + 1) (newline_indices t) = newline_indices Q ++ [S (length Q + length ln0)]) as Hnl.
   { unfold t, newline_indices. rewrite nli_app. cbn [plus]. rewrite (nli_line (length Q) ln0 ln Hln0).
@@ -538,10 +539,10 @@ Proof.
       * exfalso. rewrite !count_nl_app, (count_nl_nonl ln Hln), (count_nl_nonl ln0 Hln0) in Hlt. cbn in Hlt. lia.
 Qed.
 
-(* totality: position_to_index never panics, on any text and any position, and answers an index
+(* totality: position_to_index_old never panics, on any text and any position, and answers an index
    inside the text (or its end) *)
-Theorem position_to_index_total (t : text) (line col : nat) :
-  exists i, position_to_index t line col = Ok i /\ i <= length t.
+Theorem position_to_index_old_total (t : text) (line col : nat) :
+  exists i, position_to_index_old t line col = Ok i /\ i <= length t.
 Proof.
   destruct (p2i_cases t line) as [[P [ln [r [-> [HP [Hc Hln]]]]]]|[Ht|[Q [ln0 [ln [-> [HQ [Hln0 [Hln Hc]]]]]]]]].
   - eexists. split; [now apply p2i_terminated|].
@@ -633,10 +634,10 @@ Proof.
 Qed.
 
 (* ------------------------------------------------------------------------------------------ *)
-(*  C08_lookup: outside the known class position_to_index inverts `resolve`                     *)
+(*  auxiliary: away from the final line (line >= 1) the pre-229693d code inverts `resolve`      *)
 (* ------------------------------------------------------------------------------------------ *)
-Theorem lookup_correct (t : text) (line col i : nat) :
-  resolve t (line, col) = Some i -> ~ KnownClass t line -> position_to_index t line col = Ok i.
+Theorem lookup_old_outside (t : text) (line col i : nat) :
+  resolve t (line, col) = Some i -> ~ KnownClass t line -> position_to_index_old t line col = Ok i.
 Proof.
   intros H HK.
   destruct (resolve_inv t line col i H) as [P [ln [r [k [-> [HP [Hc [Hln [Hr [Hk [Hs ->]]]]]]]]]]].
@@ -653,45 +654,9 @@ Proof.
     rewrite col_result_valid by lia. now rewrite andb_false_r.
 Qed.
 
-(* ... and inside the known class it never does: KnownClass is exactly the set of failures *)
-Theorem lookup_known_class_wrong (t : text) (line col i : nat) :
-  resolve t (line, col) = Some i -> KnownClass t line ->
-  exists j, position_to_index t line col = Ok j /\ j < i.
-Proof.
-  intros H [H1 HK].
-  destruct (resolve_inv t line col i H) as [P [ln [r [k [-> [HP [Hc [Hln [Hr [Hk [Hs ->]]]]]]]]]]].
-  destruct Hr as [->|[r' ->]].
-  2:{ exfalso. rewrite !count_nl_app, count_nl_cons, is_nl_NL in HK. lia. }
-  rewrite app_nil_r. assert (P <> []) as Hne by (intros ->; cbn in Hc; lia).
-  destruct (complete_last_line P HP Hne) as [Q [ln0 [-> [HQ Hln0]]]].
-  assert (count_nl Q + 1 = line) as HcQ.
-  { rewrite !count_nl_app, (count_nl_nonl ln0 Hln0) in Hc. cbn in Hc. lia. }
-  replace ((Q ++ ln0 ++ [NL]) ++ ln) with (Q ++ ln0 ++ NL :: ln) by (now rewrite <- !app_assoc).
-  rewrite (p2i_last_terminated Q ln0 ln line col HQ Hln0 Hln) by lia.
-  eexists. split; [reflexivity|].
-  rewrite !app_length. cbn [length].
-  destruct col as [|col].
-  - replace (ln0 ++ [NL]) with ((ln0 ++ [NL])) by reflexivity.
-    destruct (ln0 ++ [NL]) as [|c seg] eqn:E; [now destruct ln0|]. rewrite col_result_0. lia.
-  - pose proof (col_result_bound (length Q) (ln0 ++ [NL]) (S col)) as B.
-    rewrite app_length in B. cbn [length] in B.
-    assert (1 <= k). { destruct k; [cbn in Hs; discriminate|lia]. }
-    lia.
-Qed.
-
 (* ------------------------------------------------------------------------------------------ *)
-(*  range_to_span and the lint selection of generate_code_actions                               *)
+(*  the lint selection of generate_code_actions: what overlapping [i, i+1) means                *)
 (* ------------------------------------------------------------------------------------------ *)
-Theorem range_to_span_correct (t : text) (p1 p2 : position) (i1 i2 : nat) :
-  resolve t p1 = Some i1 -> resolve t p2 = Some i2 -> i1 <= i2 ->
-  ~ KnownClass t (fst p1) -> ~ KnownClass t (fst p2) ->
-  range_to_span t (p1, p2) = Ok (mkspan i1 i2).
-Proof.
-  destruct p1 as [l1 c1], p2 as [l2 c2]. cbn [fst]. intros R1 R2 Hle K1 K2.
-  unfold range_to_span. rewrite (lookup_correct t l1 c1 i1 R1 K1), (lookup_correct t l2 c2 i2 R2 K2).
-  cbn [bind]. unfold span_new. destruct (i2 <? i1) eqn:E; [apply Nat.ltb_lt in E; lia|reflexivity].
-Qed.
-
 Definition covers (i : nat) (l : span) : bool := (sstart l <=? i) && (i <? send l).
 
 Lemma overlaps_cursor (l : span) (i : nat) : overlaps l (with_len (mkspan i i) 1) = covers i l.
@@ -702,45 +667,18 @@ Proof.
   - apply Nat.leb_gt in A. apply Nat.ltb_lt in B. lia.
 Qed.
 
-(* generate_code_actions offers exactly the lints that contain the character under the start of
-   the requested range *)
-Theorem selected_correct (t : text) (p1 p2 : position) (i1 i2 : nat) (lints : list span) :
-  resolve t p1 = Some i1 -> resolve t p2 = Some i2 -> i1 <= i2 ->
-  ~ KnownClass t (fst p1) -> ~ KnownClass t (fst p2) ->
-  selected t (p1, p2) lints = Ok (filter (covers i1) lints).
-Proof.
-  intros R1 R2 Hle K1 K2. unfold selected, lookup_span.
-  rewrite (range_to_span_correct t p1 p2 i1 i2 R1 R2 Hle K1 K2). cbn [bind]. f_equal.
-  apply filter_ext. intros l. unfold overlaps, with_len, covers. cbn [sstart send].
-  destruct (sstart l <=? i1) eqn:A; destruct (sstart l <? i1 + 1) eqn:B; try reflexivity.
-  - apply Nat.leb_le in A. apply Nat.ltb_ge in B. lia.
-  - apply Nat.leb_gt in A. apply Nat.ltb_lt in B. lia.
-Qed.
-
-(* hence: a request whose start lies inside a lint's (non-empty) span gets that lint *)
-Theorem code_action_selected (t : text) (p1 p2 : position) (i1 i2 : nat) (lints : list span) (sp : span) :
-  resolve t p1 = Some i1 -> resolve t p2 = Some i2 -> i1 <= i2 ->
-  ~ KnownClass t (fst p1) -> ~ KnownClass t (fst p2) ->
-  In sp lints -> sstart sp <= i1 < send sp ->
-  exists sel, selected t (p1, p2) lints = Ok sel /\ In sp sel.
-Proof.
-  intros R1 R2 Hle K1 K2 Hin [Ha Hb]. eexists. split; [now apply (selected_correct t p1 p2 i1 i2)|].
-  apply filter_In. split; [exact Hin|]. unfold covers.
-  apply andb_true_iff. split; [now apply Nat.leb_le|now apply Nat.ltb_lt].
-Qed.
-
 (* ------------------------------------------------------------------------------------------ *)
-(*  the code with fixes/F9.diff applied                                                         *)
+(*  C08_lookup: position_to_index (current code, 229693d) inverts `resolve` on EVERY position   *)
 (* ------------------------------------------------------------------------------------------ *)
 Lemma nl0_length (t : text) (line : nat) :
   length (firstn (line + 1) (newline_indices t)) = Nat.min (line + 1) (count_nl t).
 Proof. unfold newline_indices. now rewrite firstn_length, nli_length. Qed.
 
 (* outside the known class the patch changes nothing *)
-Lemma p2i_fixed_outside (t : text) (line col : nat) :
-  ~ KnownClass t line -> position_to_index_fixed t line col = position_to_index t line col.
+Lemma fix_confined (t : text) (line col : nat) :
+  ~ KnownClass t line -> position_to_index t line col = position_to_index_old t line col.
 Proof.
-  intros HK. unfold position_to_index_fixed, position_to_index. cbv zeta.
+  intros HK. unfold position_to_index, position_to_index_old. cbv zeta.
   destruct (1 <=? line) eqn:E1; [|reflexivity].
   destruct (length (firstn (line + 1) (newline_indices t)) =? line) eqn:E2; [|reflexivity].
   exfalso. apply HK. apply Nat.leb_le in E1. apply Nat.eqb_eq in E2. rewrite nl0_length in E2.
@@ -748,11 +686,11 @@ Proof.
 Qed.
 
 (* on the final line the patched code walks the final line *)
-Lemma p2i_fixed_final (P ln : text) (line col : nat) :
+Lemma p2i_final (P ln : text) (line col : nat) :
   complete P -> count_nl P = line -> 1 <= line -> nonl ln -> (ln <> [] \/ col = 0) ->
-  position_to_index_fixed (P ++ ln) line col = Ok (col_result (length P) ln col).
+  position_to_index (P ++ ln) line col = Ok (col_result (length P) ln col).
 Proof.
-  intros HP Hc H1 Hln Hcond. unfold position_to_index_fixed. cbv zeta.
+  intros HP Hc H1 Hln Hcond. unfold position_to_index. cbv zeta.
   assert (firstn (line + 1) (newline_indices (P ++ ln)) = newline_indices P) as Hnl.
   { unfold newline_indices. rewrite nli_app, (nli_nonl _ ln Hln), app_nil_r.
     apply firstn_all2. rewrite nli_length. lia. }
@@ -770,72 +708,119 @@ Proof.
   - now rewrite app_length.
 Qed.
 
-Theorem lookup_fixed_correct (t : text) (line col i : nat) :
-  resolve t (line, col) = Some i -> position_to_index_fixed t line col = Ok i.
+Theorem lookup_correct (t : text) (line col i : nat) :
+  resolve t (line, col) = Some i -> position_to_index t line col = Ok i.
 Proof.
   intros H.
   destruct (resolve_inv t line col i H) as [P [ln [r [k [E [HP [Hc [Hln [Hr [Hk [Hs Hi]]]]]]]]]]].
   destruct Hr as [->|[r' ->]].
   - destruct line as [|line].
-    + rewrite p2i_fixed_outside by (unfold KnownClass; lia). apply lookup_correct; [exact H|unfold KnownClass; lia].
+    + rewrite fix_confined by (unfold KnownClass; lia). apply lookup_old_outside; [exact H|unfold KnownClass; lia].
     + subst t. rewrite app_nil_r.
       assert (ln <> [] \/ col = 0) as Hcond.
       { destruct ln; [right|left; discriminate]. rewrite firstn_nil in Hs. cbn in Hs. now symmetry. }
       assert (1 <= S line) as H1 by lia.
-      rewrite (p2i_fixed_final P ln (S line) col HP Hc H1 Hln Hcond).
+      rewrite (p2i_final P ln (S line) col HP Hc H1 Hln Hcond).
       f_equal. subst i. rewrite <- Hs. rewrite <- (app_nil_r ln) at 1. rewrite col_result_valid by lia.
       cbn [andb]. destruct (k =? length ln) eqn:Ek; [apply Nat.eqb_eq in Ek; now subst|reflexivity].
   - assert (~ KnownClass t line) as HK.
     { unfold KnownClass. subst t. rewrite !count_nl_app, count_nl_cons, is_nl_NL. lia. }
-    rewrite (p2i_fixed_outside t line col HK). now apply lookup_correct.
+    rewrite (fix_confined t line col HK). now apply lookup_old_outside.
 Qed.
 
 (* the patched code is total as well *)
-Theorem position_to_index_fixed_total (t : text) (line col : nat) :
-  exists i, position_to_index_fixed t line col = Ok i /\ i <= length t.
+Theorem position_to_index_total (t : text) (line col : nat) :
+  exists i, position_to_index t line col = Ok i /\ i <= length t.
 Proof.
   destruct (Nat.le_gt_cases 1 line) as [H1|H0].
-  2:{ rewrite p2i_fixed_outside by (unfold KnownClass; lia). apply position_to_index_total. }
+  2:{ rewrite fix_confined by (unfold KnownClass; lia). apply position_to_index_old_total. }
   destruct (Nat.eq_dec (count_nl t) line) as [Hc|Hc].
-  2:{ rewrite p2i_fixed_outside by (unfold KnownClass; lia). apply position_to_index_total. }
+  2:{ rewrite fix_confined by (unfold KnownClass; lia). apply position_to_index_old_total. }
   destruct (split_last_line t) as [P [ln [-> [HP Hln]]]].
   assert (count_nl P = line) as HcP by (rewrite count_nl_app, (count_nl_nonl ln Hln) in Hc; lia).
   destruct ln as [|c ln].
   - destruct col as [|col].
-    + rewrite (p2i_fixed_final P [] line 0 HP HcP H1 Hln) by now right.
+    + rewrite (p2i_final P [] line 0 HP HcP H1 Hln) by now right.
       eexists. split; [reflexivity|]. unfold col_result. cbn. rewrite app_length. cbn. lia.
     + (* empty final line, column > 0: the patch does not apply (pinned tests), old behaviour *)
-      assert (position_to_index_fixed (P ++ []) line (S col) = position_to_index (P ++ []) line (S col)) as ->.
-      { unfold position_to_index_fixed, position_to_index. cbv zeta.
+      assert (position_to_index (P ++ []) line (S col) = position_to_index_old (P ++ []) line (S col)) as ->.
+      { unfold position_to_index, position_to_index_old. cbv zeta.
         assert (firstn (line + 1) (newline_indices (P ++ [])) = newline_indices P) as Hnl.
         { rewrite app_nil_r. apply firstn_all2. unfold newline_indices. rewrite nli_length. lia. }
         rewrite Hnl, (nli_complete_last0 P HP). rewrite app_nil_r, Nat.ltb_irrefl.
         cbn [Nat.eqb orb]. now rewrite andb_false_r. }
-      apply position_to_index_total.
-  - rewrite (p2i_fixed_final P (c :: ln) line col HP HcP H1 Hln) by (left; discriminate).
+      apply position_to_index_old_total.
+  - rewrite (p2i_final P (c :: ln) line col HP HcP H1 Hln) by (left; discriminate).
     eexists. split; [reflexivity|].
     pose proof (col_result_bound (length P) (c :: ln) col) as B. rewrite app_length. lia.
 Qed.
 
-Theorem range_to_span_fixed_correct (t : text) (p1 p2 : position) (i1 i2 : nat) :
+Theorem range_to_span_correct (t : text) (p1 p2 : position) (i1 i2 : nat) :
   resolve t p1 = Some i1 -> resolve t p2 = Some i2 -> i1 <= i2 ->
-  range_to_span_fixed t (p1, p2) = Ok (mkspan i1 i2).
+  range_to_span t (p1, p2) = Ok (mkspan i1 i2).
 Proof.
   destruct p1 as [l1 c1], p2 as [l2 c2]. intros R1 R2 Hle.
-  unfold range_to_span_fixed. rewrite (lookup_fixed_correct t l1 c1 i1 R1), (lookup_fixed_correct t l2 c2 i2 R2).
+  unfold range_to_span. rewrite (lookup_correct t l1 c1 i1 R1), (lookup_correct t l2 c2 i2 R2).
   cbn [bind]. unfold span_new. destruct (i2 <? i1) eqn:E; [apply Nat.ltb_lt in E; lia|reflexivity].
 Qed.
 
-Theorem selected_fixed_correct (t : text) (p1 p2 : position) (i1 i2 : nat) (lints : list span) :
+Theorem selected_correct (t : text) (p1 p2 : position) (i1 i2 : nat) (lints : list span) :
   resolve t p1 = Some i1 -> resolve t p2 = Some i2 -> i1 <= i2 ->
-  selected_fixed t (p1, p2) lints = Ok (filter (covers i1) lints).
+  selected t (p1, p2) lints = Ok (filter (covers i1) lints).
 Proof.
-  intros R1 R2 Hle. unfold selected_fixed, lookup_span_fixed.
-  rewrite (range_to_span_fixed_correct t p1 p2 i1 i2 R1 R2 Hle). cbn [bind]. f_equal.
+  intros R1 R2 Hle. unfold selected, lookup_span.
+  rewrite (range_to_span_correct t p1 p2 i1 i2 R1 R2 Hle). cbn [bind]. f_equal.
   apply filter_ext. intros l. unfold overlaps, with_len, covers. cbn [sstart send].
   destruct (sstart l <=? i1) eqn:A; destruct (sstart l <? i1 + 1) eqn:B; try reflexivity.
   - apply Nat.leb_le in A. apply Nat.ltb_ge in B. lia.
   - apply Nat.leb_gt in A. apply Nat.ltb_lt in B. lia.
+Qed.
+
+(* hence: a request whose start lies inside a lint's (non-empty) span gets that lint *)
+Theorem code_action_selected (t : text) (p1 p2 : position) (i1 i2 : nat) (lints : list span) (sp : span) :
+  resolve t p1 = Some i1 -> resolve t p2 = Some i2 -> i1 <= i2 ->
+  In sp lints -> sstart sp <= i1 < send sp ->
+  exists sel, selected t (p1, p2) lints = Ok sel /\ In sp sel.
+Proof.
+  intros R1 R2 Hle Hin [Ha Hb]. eexists. split; [now apply (selected_correct t p1 p2 i1 i2)|].
+  apply filter_In. split; [exact Hin|]. unfold covers.
+  apply andb_true_iff. split; [now apply Nat.leb_le|now apply Nat.ltb_lt].
+Qed.
+
+(* round trips through harper's own two conversions: the position published for an index leads back
+   to that index, the range published for a span leads back to that span *)
+Theorem roundtrip_index (t : text) (i : nat) :
+  i <= length t ->
+  exists l c, index_to_position t i = Ok (l, c) /\ position_to_index t l c = Ok i.
+Proof.
+  intros Hi. destruct (index_to_position_sound t i Hi) as [[l c] [E R]].
+  exists l, c. split; [exact E|]. now apply lookup_correct.
+Qed.
+
+Theorem roundtrip_span (t : text) (sp : span) :
+  span_in (length t) sp ->
+  exists r, span_to_range t sp = Ok r /\ range_to_span t r = Ok (mkspan (sstart sp) (send sp)).
+Proof.
+  intros H. destruct (span_to_range_sound t sp H) as [pa [pb [E [Ra Rb]]]].
+  exists (pa, pb). split; [exact E|]. destruct H as [H1 H2]. now apply range_to_span_correct.
+Qed.
+
+(* end to end inside the conversion layer: code actions requested (cursor or selection up to the
+   end of the diagnostic) at ANY character of a lint, addressed by the position harper itself
+   publishes for it, offer that lint — wherever in the text the lint lies, the last line included *)
+Theorem code_action_at_published (t : text) (lints : list span) (sp : span) (i : nat) :
+  span_in (length t) sp -> In sp lints -> sstart sp <= i < send sp ->
+  exists p pe sel sel',
+    index_to_position t i = Ok p /\ index_to_position t (send sp) = Ok pe /\
+    selected t (p, p) lints = Ok sel /\ In sp sel /\
+    selected t (p, pe) lints = Ok sel' /\ In sp sel'.
+Proof.
+  intros [H1 H2] Hin Hi.
+  destruct (index_to_position_sound t i) as [p [E R]]; [lia|].
+  destruct (index_to_position_sound t (send sp) H2) as [pe [Ee Re]].
+  destruct (code_action_selected t p p i i lints sp R R (le_n _) Hin Hi) as [sel [S1 I1]].
+  destruct (code_action_selected t p pe i (send sp) lints sp R Re) as [sel' [S2 I2]]; [lia|exact Hin|exact Hi|].
+  exists p, pe, sel, sel'. now repeat split.
 Qed.
 
 (* ------------------------------------------------------------------------------------------ *)
@@ -989,13 +974,8 @@ Proof.
 Qed.
 
 Theorem lookup_correct_lsp (t : text) (line col i : nat) :
-  no_lone_cr t -> resolve_lsp t (line, col) = Some i -> ~ KnownClass t line ->
-  position_to_index t line col = Ok i.
-Proof. intros Hn H HK. apply lookup_correct; [now apply resolve_lsp_sub|exact HK]. Qed.
-
-Theorem lookup_fixed_correct_lsp (t : text) (line col i : nat) :
-  no_lone_cr t -> resolve_lsp t (line, col) = Some i -> position_to_index_fixed t line col = Ok i.
-Proof. intros Hn H. apply lookup_fixed_correct. now apply resolve_lsp_sub. Qed.
+  no_lone_cr t -> resolve_lsp t (line, col) = Some i -> position_to_index t line col = Ok i.
+Proof. intros Hn H. apply lookup_correct. now apply resolve_lsp_sub. Qed.
 
 Theorem edit_equiv_lsp (s : suggestion) (sp : span) (t : text) :
   span_in (length t) sp -> no_lone_cr t ->
@@ -1024,17 +1004,3 @@ Proof.
   - split; [exists [97%N], [98%N]; now split|]. now vm_compute.
 Qed.
 
-(* ------------------------------------------------------------------------------------------ *)
-(*  F9: the witness                                                                             *)
-(* ------------------------------------------------------------------------------------------ *)
-(* "ab\ncd", position (1,0) denotes index 3 (the 'c'), position_to_index answers 0 *)
-Lemma lookup_refuted :
-  exists t line col i,
-    KnownClass t line /\ resolve t (line, col) = Some i /\ i < length t /\
-    position_to_index t line col <> Ok i /\
-    (* ... hence a lint on "cd" is not selected for a cursor on its first character *)
-    selected t ((line, col), (line, col)) [mkspan 3 5] = Ok [].
-Proof.
-  exists [97; 98; 10; 99; 100]%N, 1, 0, 3. unfold KnownClass.
-  vm_compute. repeat split; try lia. discriminate.
-Qed.
